@@ -194,7 +194,7 @@ theorem wp_motionTail (mv nrow noff : Int) {s : VS} {c : Prop} (hs : SOk s c) (Q
   · exact hrest s hs
 
 /-- **the prefixes and the motion of an iteration** (`viPre`) -/
-theorem wp_viPre (hE : EngineOk) {s : VS} {c : Prop} (hs : SOk s c) (hc : CursorOk s) (hmk : MarksIn s) (hsl : SlashOk s)
+theorem wp_viPre {s : VS} {c : Prop} (hs : SOk s c) (hc : CursorOk s) (hmk : MarksIn s) (hsl : SearchOk s)
     (Q : Int × Int × Int → VS → Prop)
     (hQ : ∀ mv r o s', MvF s s' → (mv = 0 → s'.ed = s.ed ∧ allQ s' <:+ allQ s) → Q (mv, r, o) s') :
     wp viPre Q s := by
@@ -211,7 +211,7 @@ theorem wp_viPre (hE : EngineOk) {s : VS} {c : Prop} (hs : SOk s c) (hc : Cursor
     intro st pst
     have hl : lines st = lines s := by unfold Vi.lines; rw [pst.1]
     have hst : SOk st c := hs.congr (by rw [pst.1]) (by rw [pst.1])
-    refine wp_viMotion hE _ _ st hst ((curOk_noeol hs hc.1 _).of_lines hl) (hmk.of_lb (by rw [pst.1])) (hsl.pfx pst) Q
+    refine wp_viMotion _ _ st hst ((curOk_noeol hs hc.1 _).of_lines hl) (hmk.of_lb (by rw [pst.1])) (hsl.pfx pst) Q
       (fun mv r o s' m p hz => hQ mv r o s' ((MvF.of_ed pst.1).trans m) (fun h0 => ?_))
     obtain ⟨a, b⟩ := hz h0
     exact ⟨a.trans pst.1, b.trans pst.2⟩
@@ -225,12 +225,12 @@ theorem wp_viPre (hE : EngineOk) {s : VS} {c : Prop} (hs : SOk s c) (hc : Cursor
 
 /-- **one iteration of the loop of `vi()`**: no trap; if the editor is not quitting afterwards, the invariant
     of the buffers, the registers and the cursor holds again -/
-theorem wp_viStep (hE : EngineOk) (hX1 : ExNoTrap) (hX2 : ExKeeps) {s : VS} (hs : SOk s True) (hc : CursorOk s)
-    (hm1 : MarksIn s) (hm2 : MarksIn (markCaret s)) (hsl : SlashOk s) :
+theorem wp_viStep {s : VS} (hs : SOk s True) (hc : CursorOk s)
+    (hm1 : MarksIn s) (hm2 : MarksIn (markCaret s)) (hsl : SearchOk s) (hcol : ColonOk s) :
     wp viStep (fun _ s' => s'.ed.xquit = false → SOk s' True ∧ CursorOk s') s := by
   unfold viStep
   wp1
-  refine wp_viPre hE hs hc hm1 hsl _ (fun mv nrow noff s1 m1 hz => ?_)
+  refine wp_viPre hs hc hm1 hsl _ (fun mv nrow noff s1 m1 hz => ?_)
   wp1
   have hpost : ∀ (r : Option Nat) (s2 : VS), CtPost r s2 →
       wp (viPost r) (fun _ s' => s'.ed.xquit = false → SOk s' True ∧ CursorOk s') s2 :=
@@ -242,7 +242,7 @@ theorem wp_viStep (hE : EngineOk) (hX1 : ExNoTrap) (hX2 : ExKeeps) {s : VS} (hs 
   · have hmv : mv = 0 := by simpa using h0
     obtain ⟨he, hq⟩ := hz hmv
     have hl : lines s1 = lines s := m1.lines
-    refine wp_commandTail hE hX1 hX2 hs1 (rowOk_congr hc.1 m1.2.1 hl) ?_ ?_ ?_ _ hpost
+    refine wp_commandTail hs1 (rowOk_congr hc.1 m1.2.1 hl) ?_ ?_ ?_ (hcol.mono he hq) _ hpost
     · rw [hl, m1.2.1, m1.2.2.1]; exact hc.2
     · refine hm2.of_lb ?_
       unfold markCaret
